@@ -414,6 +414,8 @@ def run(ctx):
     ]
     ok = ctx.coq_props()
     ctx.log('proofs checked: %s' % ok)
+    ctx.extra['open'] = ['whole-specification form of inline/extract (C19_inline_ref_flatten is stated at the point of use); '
+                         'instances evaluated by vm_compute and tested on /repo']
     witnesses(ctx)
     known_findings(ctx)
     dup_name_cases(ctx, 6 if ctx.quick else 80)
